@@ -270,9 +270,46 @@ impl SubCheck for History {
                     Op::Convert { probe: p2, to_local: !dir, new_thread: false },
                 ]
             });
+        // toggle: X -> (unset | empty | garbage) -> the very same X, long waits: a cache key that is not
+        // updated when the source kind changes only shows when the same string returns
+        let env_spec = prop_oneof![
+            3 => (0usize..N_CUSTOM).prop_map(Spec::AbsPath),
+            1 => (0usize..N_CUSTOM).prop_map(Spec::ColonAbsPath),
+            1 => (0usize..SYSTEM_ZONES.len()).prop_map(Spec::ZoneName),
+            2 => (0usize..RULES.len()).prop_map(Spec::Rule),
+        ];
+        let toggle = (env_spec.clone(), prop_oneof![3 => Just(Spec::Unset), 1 => Just(Spec::Empty), 1 => (0usize..GARBAGE.len()).prop_map(Spec::Garbage)], 0u8..8, 0u8..8, any::<bool>()).prop_map(|(x, mid, p1, p2, dir)| {
+            vec![
+                Op::SetTz(x.clone()),
+                Op::Convert { probe: p1, to_local: dir, new_thread: false },
+                Op::SetTz(mid),
+                Op::Wait(1100),
+                Op::Convert { probe: p2, to_local: !dir, new_thread: false },
+                Op::SetTz(x),
+                Op::Wait(1100),
+                Op::Convert { probe: p1, to_local: dir, new_thread: false },
+                Op::Convert { probe: p2, to_local: !dir, new_thread: false },
+            ]
+        });
+        // a conversion *inside* the reuse window right after a change, then a long wait: a refresh
+        // path that records the new source without loading its zone only shows in this shape
+        let inside = (env_spec.clone(), env_spec, 0u8..8, 0u8..8, any::<bool>(), 0u32..300, any::<bool>()).prop_map(|(x, y, p1, p2, dir, pause, settle)| {
+            let mut v = vec![Op::SetTz(x)];
+            if settle { v.push(Op::Wait(1100)); }
+            v.extend([
+                Op::Convert { probe: p1, to_local: dir, new_thread: false },
+                Op::SetTz(y),
+                Op::Wait(pause),
+                Op::Convert { probe: p2, to_local: !dir, new_thread: false },
+                Op::Wait(1100),
+                Op::Convert { probe: p1, to_local: dir, new_thread: false },
+                Op::Convert { probe: p2, to_local: !dir, new_thread: false },
+            ]);
+            v
+        });
         let free = proptest::collection::vec(op, 3..14);
         Some(
-            prop_oneof![2 => free, 2 => template, 3 => template3]
+            prop_oneof![2 => free, 2 => template, 3 => template3, 2 => toggle, 2 => inside]
                 .prop_map(|mut ops| {
                     // at most three long waits per history; make sure it ends with conversions
                     let mut longs = 0;
@@ -364,5 +401,5 @@ pub fn run(ctx: &Ctx) {
     }
     // the zones must be pairwise distinguishable at the probes, or a wrong-zone answer could hide
     ctx.shrink_iters.store(12, std::sync::atomic::Ordering::Relaxed);
-    ctx.run_prop(&History, ctx.n(64, 1500));
+    ctx.run_prop(&History, ctx.n(96, 2000));
 }
